@@ -18,6 +18,9 @@ pub enum Which {
     C01,
     C02,
     C17,
+    /// No oracle: only computes the successors on which subject and model agree (used by
+    /// the properties that explore the same graph with their own oracle).
+    Nav,
 }
 
 impl Which {
@@ -26,6 +29,7 @@ impl Which {
             Which::C01 => "C01",
             Which::C02 => "C02",
             Which::C17 => "C17",
+            Which::Nav => "NAV",
         }
     }
     fn replay_cmd(self) -> &'static str {
@@ -33,6 +37,7 @@ impl Which {
             Which::C01 => "c01-one",
             Which::C02 => "c02-one",
             Which::C17 => "c17-one",
+            Which::Nav => "nav-one",
         }
     }
 }
@@ -104,6 +109,7 @@ impl<'a> PosCheck<'a> {
     pub fn check_state(&self, b: &Board) -> Vec<(Board, u64)> {
         let p = match eng::pos_of(b) {
             Ok(p) => p,
+            Err(_) if self.which == Which::Nav => return vec![],
             Err(e) => {
                 // Only reachable for roots/class members, whose boards come from the FEN reader.
                 self.rep.violation(
@@ -163,6 +169,7 @@ impl<'a> PosCheck<'a> {
         // ---- subject: generate moves
         let em = match guard(|| self.mg.generate_moves(b)) {
             Ok(m) => m,
+            Err(_) if self.which == Which::Nav => return vec![],
             Err(e) => {
                 self.violate(&fen, "panic=generate_moves", format!("generate_moves: {}", e), J::Null);
                 return vec![];
@@ -444,7 +451,7 @@ pub fn run(which: Which, tier: &str, seed: u64, out: &str) {
     if which == Which::C02 {
         let mut cl = Vec::new();
         let mut closures: Vec<(&str, &str, u64)> = vec![
-            ("K+R(h1, right K) v k", "7k/8/8/8/8/8/8/4K2R w K - 0 1", 3_000_000),
+            ("K+R(h1, right K) v k", "6k1/8/8/8/8/8/8/4K2R w K - 0 1", 3_000_000),
             ("K+P v k (all promotions)", "7k/8/8/8/8/8/P7/K7 w - - 0 1", 8_000_000),
         ];
         if thorough {
